@@ -18,10 +18,31 @@ def main(tier):
     ck.bounds = {'instances': 'two instances created in either order, and three (the middle one stepped)',
                  'step': 'one whole instruction of the stepped instance (opcode = configuration: quick 33 base + 6 CB opcodes covering every instruction class; thorough all 245+256), every register/flag/memory/interrupt state of every instance symbolic and independent',
                  'claims': '(1) every register, scheduler field, interrupt register and memory byte (symbolic probe) of the other instance(s) unchanged; (2) the stepped instance equals the reference SM83 (what a solo instance does, C01); (3) no package-level variable of any repository package is written by the step (interpreter-level comparison of all globals)',
+                 'system level': 'two whole memory systems per cartridge kind (with and without declared RAM): one write to an address class / register, a machine cycle, a button event on one: every readable address (symbolic), clock and cartridge RAM byte of the other unchanged; no package-level variable written',
+                 'construction': 'the real gameboy.New called twice with every DisableAudioOutput x DisableVideoOutput combination: no component shared, each emulator wired to its own components, outputs attached iff enabled, serial writer wired',
                  'induction': 'sequentially interleaved schedules of any length follow from (1)+(2) for both orders',
                  'outside': 'truly concurrent stepping under the race detector (the interpreter has no goroutine or memory-model semantics); the non-CPU components hold no package-level mutable state (checked by (3) for the CPU step; their tables are read-only)'}
     ck.assumptions = ['each instance at an instruction boundary with no dispatch due for the stepped one (dispatch paths: C04)']
     ck.run(jobs, timeout_ms=300000)
+    ck.run([('cpu', 'VerifTwoInstancesWake', {'order': od, 'halted': h}) for od in (0, 1) for h in (0, 1)], timeout_ms=300000)
+    # whole memory systems (real Mapper, controllers, PPU, APU, timer): no state shared between two of them
+    import c06, common_jobs
+    ck.use_build(['memory'], bodies='image,image/color,math/bits')
+    kinds = {'none': dict(type=0, rom=0, ram=0), 'mbc1': dict(type=3, rom=1, ram=3), 'mbc1-noram': dict(type=1, rom=1, ram=0), 'mbc2': dict(type=6, rom=1, ram=0),
+             'mbc3': dict(type=0x13, rom=1, ram=2), 'mbc3-noram': dict(type=0x11, rom=1, ram=0), 'mbc5': dict(type=0x1b, rom=1, ram=2), 'mbc5-noram': dict(type=0x19, rom=1, ram=0)}
+    sj = []
+    for kname, kc in kinds.items():
+        for cls in ((0, 2, 3, 5, 7) if q else range(10)):
+            sj.append(('memory', 'VerifTwoSystems', dict(kc, what=0, cls=cls, addr=0)))
+        for a in (0xff26, 0xff46, 0xff40, 0xff05):
+            sj.append(('memory', 'VerifTwoSystems', dict(kc, what=0, cls=10, addr=a)))
+        for w in ((1, 5) if q else range(1, 7)):
+            sj.append(('memory', 'VerifTwoSystems', dict(kc, what=w, cls=0, addr=0)))
+    ck.run(sj, timeout_ms=300000, setup=common_jobs.stub_render)
+    # the real gameboy.New, twice
+    ck.use_build(['.'], bodies='image,image/color,math/bits')
+    ck.run([('.', 'VerifNewWiring', {'audiooff': a, 'videooff': v}) for a in (0, 1) for v in (0, 1)], timeout_ms=300000)
+    ck.stubs_used.append('ioutil.ReadFile -> the bytes registered by the harness (vTempRom); display/speakers pure-Go stubs')
     ck.finish(explanation='two/three CPU instances alive in one process: non-interference and solo-equivalence of one instruction step, for every value of every instance\'s state')
 
 
